@@ -6,10 +6,13 @@ import (
 	"bytes"
 	"context"
 	"fmt"
+	"go/types"
+	"math/big"
 	"os"
 	"os/exec"
 	"path/filepath"
 	"regexp"
+	"sort"
 	"strings"
 	"sync"
 	"time"
@@ -38,24 +41,493 @@ var solvers = []solverSpec{
 	}},
 }
 
+// localSyms: the call-/havoc-introduced symbols of a term (everything except parameters, configuration and heap roots).
+func (x *Exec) localSyms(t *Term) map[*Term]bool {
+	if x.symCache == nil {
+		x.symCache = map[*Term]map[*Term]bool{}
+	}
+	if s, ok := x.symCache[t]; ok {
+		return s
+	}
+	out := map[*Term]bool{}
+	seen := map[*Term]bool{}
+	var walk func(u *Term)
+	walk = func(u *Term) {
+		if seen[u] {
+			return
+		}
+		seen[u] = true
+		if u.Op == "var" {
+			n := u.Name
+			if !(strings.HasPrefix(n, "p.") || strings.HasPrefix(n, "fv.") || strings.HasPrefix(n, "cfg.") || n == "H0" || n == "alloc0" || strings.HasPrefix(n, "frame.")) {
+				out[u] = true
+			}
+			return
+		}
+		for _, a := range u.Args {
+			walk(a)
+		}
+	}
+	walk(t)
+	x.symCache[t] = out
+	return out
+}
+
+// relevant: cone of influence over local symbols. Dropping hypotheses is always sound for a validity proof.
+func (x *Exec) relevant(assumes []*Term, goalParts ...*Term) []*Term {
+	rel := map[*Term]bool{}
+	for _, g := range goalParts {
+		for s := range x.localSyms(g) {
+			rel[s] = true
+		}
+	}
+	keep := make([]bool, len(assumes))
+	for changed := true; changed; {
+		changed = false
+		for i, a := range assumes {
+			if keep[i] {
+				continue
+			}
+			syms := x.localSyms(a)
+			take := len(syms) == 0
+			for s := range syms {
+				if rel[s] {
+					take = true
+					break
+				}
+			}
+			if take {
+				keep[i] = true
+				changed = true
+				for s := range syms {
+					rel[s] = true
+				}
+			}
+		}
+	}
+	var out []*Term
+	for i, a := range assumes {
+		if keep[i] {
+			out = append(out, a)
+		}
+	}
+	return out
+}
+
 func (ob *Obligation) Script(getModel bool) string {
 	x := ob.x
 	x.mu.Lock()
 	defer x.mu.Unlock()
 	s := x.o.NewScript()
-	for _, a := range x.assumes[:ob.NAssume] {
-		s.Assert(a)
+	if !ob.Cover && !x.noSlice {
+		var as []*Term
+		goal := ob.Goal
+		if ob.Case != nil && !ob.Case.IsTrue() {
+			sm := x.caseSubst(ob.Case)
+			if !x.subDone[ob.Case] {
+				// atoms comparing a bounded term with a constant are decided by the bounds the case gives
+				x.decideAtoms(ob.Case, sm, x.assumes)
+				x.subDone[ob.Case] = true
+			}
+			x.decideAtoms(ob.Case, sm, []*Term{ob.Goal})
+			as = x.subCache[ob.Case]
+			for len(as) < ob.NAssume {
+				as = append(as, x.o.Subst(x.assumes[len(as)], sm))
+			}
+			x.subCache[ob.Case] = as
+			as = append([]*Term{}, as[:ob.NAssume]...)
+			goal = x.o.Subst(ob.Goal, sm)
+			// propagate equalities var == const that the specialised hypotheses now state outright
+			for round := 0; round < 6; round++ {
+				m2 := map[*Term]*Term{}
+				var scan func(t *Term)
+				scan = func(t *Term) {
+					switch t.Op {
+					case "and":
+						for _, a := range t.Args {
+							scan(a)
+						}
+					case "=":
+						a, b := t.Args[0], t.Args[1]
+						leaf := func(u *Term) bool { return u.Op == "var" || u.Op == "select" }
+						if a.IsConst() && leaf(b) {
+							m2[b] = a
+						} else if b.IsConst() && leaf(a) {
+							m2[a] = b
+						} else if leaf(a) && !leaf(b) && !b.IsConst() && a.Sort.Kind == SInt && !occurs(a, b) {
+							m2[a] = b // definition of a byte / value read from memory
+						} else if leaf(b) && !leaf(a) && !a.IsConst() && b.Sort.Kind == SInt && !occurs(b, a) {
+							m2[b] = a
+						}
+					}
+				}
+				for _, a := range as {
+					scan(a)
+				}
+				// a definition must not mention another symbol that is being replaced in the same round
+				for v, d := range m2 {
+					if d.IsConst() {
+						continue
+					}
+					for w := range m2 {
+						if w != v && occurs(w, d) {
+							delete(m2, v)
+							break
+						}
+					}
+				}
+				// hypotheses asserted outright are true wherever they occur inside other hypotheses
+				owner := map[*Term]int{}
+				var addWhole func(a *Term, i int)
+				addWhole = func(a *Term, i int) {
+					if a.Op == "and" {
+						for _, b := range a.Args {
+							addWhole(b, i)
+						}
+					}
+					if a.Sort == BoolSort && a.Op != "true" && a.Op != "false" {
+						if _, ok := owner[a]; !ok {
+							owner[a] = i
+						}
+					}
+				}
+				for i, a := range as {
+					addWhole(a, i)
+				}
+				changed := false
+				for i, a := range as {
+					mm := map[*Term]*Term{}
+					for w, oi := range owner {
+						if oi != i {
+							mm[w] = x.o.True()
+						}
+					}
+					na := x.o.Subst(a, mm)
+					if na != a {
+						as[i] = na
+						changed = true
+					}
+				}
+				if len(m2) == 0 && !changed {
+					break
+				}
+				var eqs []*Term
+				for v, c := range m2 {
+					eqs = append(eqs, x.o.mk("=", BoolSort, "", nil, v, c))
+				}
+				for i := range as {
+					as[i] = x.o.Subst(as[i], m2)
+				}
+				goal = x.o.Subst(goal, m2)
+				as = append(as, eqs...)
+			}
+			for _, a := range x.relevant(as, goal, ob.Case) {
+				s.Assert(a)
+			}
+			s.Assert(ob.Case)
+		} else {
+			for _, a := range x.relevant(x.assumes[:ob.NAssume], goal) {
+				s.Assert(a)
+			}
+		}
+		s.Assert(x.o.Not(goal))
+		var mts []*Term
+		if getModel {
+			for _, it := range x.modelItems() {
+				mts = append(mts, it.Term)
+			}
+		}
+		return s.String(getModel, mts)
 	}
-	s.Assert(x.o.Not(ob.Goal))
+	if ob.Case != nil && !ob.Case.IsTrue() {
+		// specialise the query to the case: facts of the form t == const (and the case's atoms) are substituted
+		sm := x.caseSubst(ob.Case)
+		as := x.subCache[ob.Case]
+		for len(as) < ob.NAssume {
+			as = append(as, x.o.Subst(x.assumes[len(as)], sm))
+		}
+		x.subCache[ob.Case] = as
+		for _, a := range as[:ob.NAssume] {
+			s.Assert(a)
+		}
+		s.Assert(ob.Case)
+		s.Assert(x.o.Not(x.o.Subst(ob.Goal, sm)))
+	} else {
+		for _, a := range x.assumes[:ob.NAssume] {
+			s.Assert(a)
+		}
+		s.Assert(x.o.Not(ob.Goal))
+	}
 	var mts []*Term
 	if getModel {
-		mts = x.modelTerms()
+		for _, it := range x.modelItems() {
+			mts = append(mts, it.Term)
+		}
 	}
 	return s.String(getModel, mts)
 }
 
-// modelTerms: the leaf symbols describing the function's inputs (for replay).
-func (x *Exec) modelTerms() []*Term { return nil }
+// ModelValues maps the keys of modelItems to the values of a (get-value ...) answer.
+func (ob *Obligation) ModelValues(out string) map[string]string {
+	x := ob.x
+	x.mu.Lock()
+	items := x.modelItems()
+	x.mu.Unlock()
+	vals := parseGetValue(out)
+	m := map[string]string{}
+	for i, it := range items {
+		if v, ok := vals[fmt.Sprintf("mv!%d", i)]; ok {
+			m[it.Key] = v
+		}
+	}
+	return m
+}
+
+var getValRe = regexp.MustCompile(`\(\s*(mv![0-9]+)\s+((?:\(-\s*[0-9]+\))|(?:#x[0-9a-fA-F]+)|(?:#b[01]+)|(?:[0-9]+)|true|false)\s*\)`)
+
+func parseGetValue(out string) map[string]string {
+	m := map[string]string{}
+	for _, g := range getValRe.FindAllStringSubmatch(out, -1) {
+		m[g[1]] = g[2]
+	}
+	return m
+}
+
+// caseSubst derives a substitution from a case hypothesis: conjunct atoms become true, negated atoms false,
+// and equalities with a constant replace the non-constant side.
+func (x *Exec) caseSubst(cs *Term) map[*Term]*Term {
+	if x.subMaps == nil {
+		x.subMaps = map[*Term]map[*Term]*Term{}
+		x.subCache = map[*Term][]*Term{}
+		x.subDone = map[*Term]bool{}
+	}
+	if m, ok := x.subMaps[cs]; ok {
+		return m
+	}
+	o := x.o
+	m := map[*Term]*Term{}
+	var walk func(t *Term)
+	walk = func(t *Term) {
+		switch t.Op {
+		case "and":
+			for _, a := range t.Args {
+				walk(a)
+			}
+			return
+		case "not":
+			if t.Args[0].Sort == BoolSort && t.Args[0].Op != "true" && t.Args[0].Op != "false" {
+				m[t.Args[0]] = o.False()
+			}
+			return
+		case "=":
+			a, b := t.Args[0], t.Args[1]
+			if a.IsConst() && !b.IsConst() && (b.Op == "var" || b.Op == "select") {
+				m[b] = a
+			} else if b.IsConst() && !a.IsConst() && (a.Op == "var" || a.Op == "select") {
+				m[a] = b
+			}
+		}
+		if t.Sort == BoolSort && t.Op != "true" && t.Op != "false" {
+			m[t] = o.True()
+		}
+	}
+	walk(cs)
+	x.subMaps[cs] = m
+	return m
+}
+
+func occurs(x, in *Term) bool {
+	seen := map[*Term]bool{}
+	var rec func(t *Term) bool
+	rec = func(t *Term) bool {
+		if t == x {
+			return true
+		}
+		if seen[t] {
+			return false
+		}
+		seen[t] = true
+		for _, a := range t.Args {
+			if rec(a) {
+				return true
+			}
+		}
+		return false
+	}
+	return rec(in)
+}
+
+// decideAtoms: from the case's facts (<= k t) / not (<= k t) / (<= t k) derive bounds on t and decide every
+// other atom of those shapes occurring in terms; decided atoms are added to the substitution.
+func (x *Exec) decideAtoms(cs *Term, sm map[*Term]*Term, terms []*Term) {
+	o := x.o
+	lo := map[*Term]*big.Int{}
+	hi := map[*Term]*big.Int{}
+	setLo := func(t *Term, v *big.Int) {
+		if c, ok := lo[t]; !ok || v.Cmp(c) > 0 {
+			lo[t] = v
+		}
+	}
+	setHi := func(t *Term, v *big.Int) {
+		if c, ok := hi[t]; !ok || v.Cmp(c) < 0 {
+			hi[t] = v
+		}
+	}
+	one := big.NewInt(1)
+	var walkCase func(t *Term, pos bool)
+	walkCase = func(t *Term, pos bool) {
+		switch t.Op {
+		case "and":
+			if pos {
+				for _, a := range t.Args {
+					walkCase(a, true)
+				}
+			}
+		case "not":
+			walkCase(t.Args[0], !pos)
+		case "<=":
+			a, b := t.Args[0], t.Args[1]
+			if a.IsConst() && !b.IsConst() {
+				if pos {
+					setLo(b, a.IVal)
+				} else {
+					setHi(b, new(big.Int).Sub(a.IVal, one))
+				}
+			} else if b.IsConst() && !a.IsConst() {
+				if pos {
+					setHi(a, b.IVal)
+				} else {
+					setLo(a, new(big.Int).Add(b.IVal, one))
+				}
+			}
+		}
+	}
+	walkCase(cs, true)
+	if len(lo) == 0 && len(hi) == 0 {
+		return
+	}
+	seen := map[*Term]bool{}
+	var walk func(t *Term)
+	walk = func(t *Term) {
+		if seen[t] {
+			return
+		}
+		seen[t] = true
+		if t.Op == "<=" {
+			a, b := t.Args[0], t.Args[1]
+			if _, done := sm[t]; !done {
+				if a.IsConst() && !b.IsConst() { // k <= b
+					if l, ok := lo[b]; ok && a.IVal.Cmp(l) <= 0 {
+						sm[t] = o.True()
+					} else if h, ok := hi[b]; ok && a.IVal.Cmp(h) > 0 {
+						sm[t] = o.False()
+					}
+				} else if b.IsConst() && !a.IsConst() { // a <= k
+					if h, ok := hi[a]; ok && h.Cmp(b.IVal) <= 0 {
+						sm[t] = o.True()
+					} else if l, ok := lo[a]; ok && l.Cmp(b.IVal) > 0 {
+						sm[t] = o.False()
+					}
+				}
+			}
+		}
+		if t.Op == "=" {
+			a, b := t.Args[0], t.Args[1]
+			if _, done := sm[t]; !done {
+				var v, k *Term
+				if a.IsConst() && !b.IsConst() {
+					v, k = b, a
+				} else if b.IsConst() && !a.IsConst() {
+					v, k = a, b
+				}
+				if v != nil && k.Sort.Kind == SInt {
+					if l, ok := lo[v]; ok && k.IVal.Cmp(l) < 0 {
+						sm[t] = o.False()
+					} else if h, ok := hi[v]; ok && k.IVal.Cmp(h) > 0 {
+						sm[t] = o.False()
+					}
+				}
+			}
+		}
+		for _, a := range t.Args {
+			walk(a)
+		}
+	}
+	for _, t := range terms {
+		walk(t)
+	}
+}
+
+// ModelItem names one concrete piece of the function's input in a counterexample.
+type ModelItem struct {
+	Key  string // e.g. "input.len", "input[3]", "r", "cfg.date.MaxInputLength", "d.year"
+	Term *Term
+}
+
+const modelBytes = 64
+
+// modelItems: the terms describing the function's inputs (parameters, their pointees, configuration variables).
+func (x *Exec) modelItems() []ModelItem {
+	o := x.o
+	var items []ModelItem
+	var add func(key string, v Val)
+	add = func(key string, v Val) {
+		switch t := v.(type) {
+		case *Term:
+			items = append(items, ModelItem{key, t})
+		case StrVal:
+			items = append(items, ModelItem{key + ".len", t.Len})
+			for i := 0; i < modelBytes; i++ {
+				items = append(items, ModelItem{fmt.Sprintf("%s[%d]", key, i), o.Select(t.Arr, o.IdxAdd(t.Off, o.Idx(int64(i))))})
+			}
+		case SliceVal:
+			items = append(items, ModelItem{key + ".len", t.Len}, ModelItem{key + ".cap", t.Cap}, ModelItem{key + ".nil", o.Eq(t.Reg, o.Int(0))})
+			arr := o.Select(x.entry.H, t.Reg)
+			for i := 0; i < modelBytes; i++ {
+				items = append(items, ModelItem{fmt.Sprintf("%s[%d]", key, i), o.Select(arr, o.IdxAdd(t.Off, o.Idx(int64(i))))})
+			}
+		case StructVal:
+			st, _ := t.T.Underlying().(*types.Struct)
+			for i, f := range t.F {
+				n := fmt.Sprint(i)
+				if st != nil {
+					n = st.Field(i).Name()
+				}
+				add(key+"."+n, f)
+			}
+		case PtrVal:
+			items = append(items, ModelItem{key + ".nil", t.Nil})
+			if t.Obj != nil && t.Obj.Init != nil {
+				add("*"+key, t.Obj.Init)
+			}
+		case TimeVal:
+			items = append(items, ModelItem{key + ".zero", t.Zero}, ModelItem{key + ".Y", t.Y}, ModelItem{key + ".M", t.M}, ModelItem{key + ".D", t.D})
+		case ErrVal:
+			items = append(items, ModelItem{key + ".nil", t.Nil})
+		case IfaceVal:
+			items = append(items, ModelItem{key + ".tag", t.Tag})
+		}
+	}
+	var names []string
+	for n := range x.params {
+		names = append(names, n)
+	}
+	sort.Strings(names)
+	for _, n := range names {
+		add(n, x.params[n].V)
+	}
+	var gs []string
+	for k := range x.globals {
+		gs = append(gs, k)
+	}
+	sort.Strings(gs)
+	for _, k := range gs {
+		if t, ok := x.globals[k].(*Term); ok && t.Op == "var" {
+			items = append(items, ModelItem{"cfg." + k, t})
+		}
+	}
+	return items
+}
 
 func runSolver(ctx context.Context, sp solverSpec, file string, timeoutS int) (status, out string, secs float64) {
 	argv := sp.argv(file, timeoutS)
@@ -167,7 +639,7 @@ func (ob *Obligation) Solve(timeoutS int, keepScript bool) *SolveResult {
 	res.Status, res.Solver, res.Output = final.st, final.name, final.out
 	res.Seconds = time.Since(t0).Seconds()
 	if final.st == "sat" {
-		res.Model = parseModel(final.out)
+		res.Model = ob.ModelValues(final.out)
 	}
 	return res
 }
